@@ -37,6 +37,7 @@ def readFmt (fmt : String) (ls : List Str) : Option (Out RObj) :=
   match fmt with
   | "xyz" => some (Xyz.read T ls)
   | "mol2" => some (Mol2.read ls)
+  | "pdb" => some (Pdb.read Iodata.Gen.Layouts.pdbL ls)
   | "sdf" => some (Sdf.read T Iodata.Gen.Layouts.sdfL ls)
   | _ => none
 
